@@ -18,4 +18,5 @@ INVARIANT AbsOK
 INVARIANT FloorDivOK
 INVARIANT ToWeeksOK
 INVARIANT BoolOK
+INVARIANT StdOK
 CHECK_DEADLOCK FALSE
